@@ -56,7 +56,8 @@ func mkErr(r *lib.Rand, msg string) error {
 	case 0:
 		return errors.New(msg)
 	case 1:
-		return oaerrors.New(422, "%s", msg)
+		// go-openapi errors of several codes: a message is a repeat whatever code carries it
+		return oaerrors.New([]int32{422, 602, 601, 422, 500}[r.Intn(5)], "%s", msg)
 	default:
 		return &myErr{msg}
 	}
